@@ -51,6 +51,13 @@ def tensors_equal(u, name, a, b, tags=None):
 @spec(OPS, "gather_by_index")
 def gather_by_index_spec(u, selfobj, src, idx, dim=1, squeeze=True):
     ctx = cur()
+    from tvc.td import SymTD
+
+    if isinstance(src, SymTD):
+        # TensorDict.gather along a batch dim: every entry is gathered along that dim
+        out = {k: gather_by_index_spec(u, selfobj, v, idx, dim, squeeze) for k, v in src.data.items()}
+        probe = gather_by_index_spec(u, selfobj, ops.const_tensor(src.batch_size, "b", False), idx, dim, squeeze)
+        return SymTD(out, probe.shape)
     r, q = src.rank, idx.rank
     d = norm_dim(dim, r)
     if q > r:
